@@ -25,16 +25,17 @@ pub struct ConIterOfVec<T: Send + Sync> {
 
 impl<T: Send + Sync> Drop for ConIterOfVec<T> {
     fn drop(&mut self) {
-        let vec = unsafe { &mut *self.vec.get() };
+        // SAFETY: the vec is taken out exactly once, here
+        let mut vec = unsafe { ManuallyDrop::take(&mut *self.vec.get()) };
         let len = vec.len();
         let begin = self.counter().current().min(len);
         // SAFETY: elements before `begin` are moved out to the callers, elements in `begin..len` are still owned
-        // by the vec and are dropped here; afterwards the vec only has its buffer to release
+        // by the vec and are dropped here; the vec itself is left with its buffer only, which it releases when it
+        // goes out of scope, also if the destructor of an element panics
         unsafe {
             let remaining = std::ptr::slice_from_raw_parts_mut(vec.as_mut_ptr().add(begin), len - begin);
             vec.set_len(0);
             std::ptr::drop_in_place(remaining);
-            ManuallyDrop::drop(vec);
         }
     }
 }
